@@ -39,24 +39,24 @@ var bceScope = []string{"drpcwire", "drpcmetadata", "drpcerr", "drpcstream", "dr
 
 // reviewed residual bounds checks: function + expression (never a line) with the reason they are in range.
 var bceReviewed = map[string]string{
-	"(Kind).String | _Kind_name[_Kind_index[i]:_Kind_index[i+1]]": "generated stringer: guarded by i >= Kind(len(_Kind_index)-1); index table is a constant array of ascending offsets into the constant name string",
-	"buildContext | entry[index+1:]":                              "index = strings.IndexByte(entry, '=') >= 0 on this branch, so index+1 <= len(entry)",
-	"unescape | s[i+2]":                                           "dominated by the test i+2 >= uint(len(s)) -> return",
-	"unescape | s[i+1]":                                           "dominated by the test i+2 >= uint(len(s)) -> return",
-	"grpcRead | tmp[1:5]":                                         "tmp is the result of readExactly(r, 5): a 5-byte slice on the err == nil branch",
-	"getCode | m.Call(nil)[0]":                                    "guarded by mt.NumOut() == 1: Call returns exactly one value",
-	"(*grpcWebStream).Finish | buf.Bytes()":                       "inlined bytes.Buffer.Bytes: b.buf[b.off:] with the buffer's own invariant off <= len(buf)",
+	"(Kind).String | _Kind_name[_Kind_index[_]:_Kind_index[_+1]]": "generated stringer: guarded by i >= Kind(len(_Kind_index)-1); index table is a constant array of ascending offsets into the constant name string",
+	"buildContext | _[_+1:]":              "index = strings.IndexByte(entry, '=') >= 0 on this branch, so index+1 <= len(entry)",
+	"unescape | _[_+2]":                   "dominated by the test i+2 >= uint(len(s)) -> return",
+	"unescape | _[_+1]":                   "dominated by the test i+2 >= uint(len(s)) -> return",
+	"grpcRead | _[1:5]":                   "tmp is the result of readExactly(r, 5): a 5-byte slice on the err == nil branch",
+	"getCode | _.Call(nil)[0]":            "guarded by mt.NumOut() == 1: Call returns exactly one value",
+	"(*grpcWebStream).Finish | _.Bytes()": "inlined bytes.Buffer.Bytes: b.buf[b.off:] with the buffer's own invariant off <= len(buf)",
 }
 
 // 32-bit residuals: a uint64 length compared against uint64(len(x)) and then used as an index
 var bceReviewed32 = map[string]string{
-	"ParseFrame | rem[length:]":     "dominated by length > uint64(len(rem)) -> bad",
-	"ParseFrame | rem[:length]":     "dominated by length > uint64(len(rem)) -> bad",
-	"readEntry | buf[:length]":      "dominated by length > uint64(len(buf)) -> bad",
-	"readEntry | buf[length:]":      "dominated by length > uint64(len(buf)) -> bad",
-	"readKeyValue | buf[length:]":   "dominated by length > uint64(len(buf)) -> bad",
-	"readKeyValue | buf[:length]":   "dominated by length > uint64(len(buf)) -> bad",
-	"readExactly | make([]byte, n)": "n is bounded by the caller (maxSize)",
+	"ParseFrame | _[_:]":           "dominated by length > uint64(len(rem)) -> bad",
+	"ParseFrame | _[:_]":           "dominated by length > uint64(len(rem)) -> bad",
+	"readEntry | _[:_]":            "dominated by length > uint64(len(buf)) -> bad",
+	"readEntry | _[_:]":            "dominated by length > uint64(len(buf)) -> bad",
+	"readKeyValue | _[_:]":         "dominated by length > uint64(len(buf)) -> bad",
+	"readKeyValue | _[:_]":         "dominated by length > uint64(len(buf)) -> bad",
+	"readExactly | make([]byte,_)": "n is bounded by the caller (maxSize)",
 }
 
 type bceResult struct {
@@ -432,11 +432,11 @@ func c08r3(c *an.Ctx) {
 // bceVerify re-derives, on the current source, the structural reason recorded
 // for a reviewed residual (so that weakening the guard is not hidden by the table).
 var bceVerify = map[string]func(in ssa.Instruction) bool{
-	"unescape | s[i+2]":              indexGuardedByLen,
-	"unescape | s[i+1]":              indexGuardedByLen,
-	"buildContext | entry[index+1:]": sliceAfterIndexByte,
-	"grpcRead | tmp[1:5]":            sliceOfExactRead,
-	"getCode | m.Call(nil)[0]":       indexOfCallResult,
+	"unescape | _[_+2]":        indexGuardedByLen,
+	"unescape | _[_+1]":        indexGuardedByLen,
+	"buildContext | _[_+1:]":   sliceAfterIndexByte,
+	"grpcRead | _[1:5]":        sliceOfExactRead,
+	"getCode | _.Call(nil)[0]": indexOfCallResult,
 }
 
 func offsetOf(v ssa.Value) (ssa.Value, int64) {
